@@ -22,7 +22,7 @@ pub struct Exception<'a, P> {
 }
 impl<'a, P: Pe<'a>> Exception<'a, P> {
 	pub(crate) fn try_from(pe: P) -> Result<Exception<'a, P>> {
-		let datadir = pe.data_directory().get(IMAGE_DIRECTORY_ENTRY_EXCEPTION).ok_or(Error::Bounds)?;
+		let datadir = pe.data_directory().get(IMAGE_DIRECTORY_ENTRY_EXCEPTION).ok_or(Error::Null)?;
 		let len = datadir.Size as usize / mem::size_of::<RUNTIME_FUNCTION>();
 		let rem = datadir.Size as usize % mem::size_of::<RUNTIME_FUNCTION>();
 		if rem != 0 {
